@@ -643,3 +643,7 @@ def replay(case):
             f'reads {[r for r, _ in obs["calls"]]} with {answers} bytes: {v[1]}')
 
 MANIFEST['text'] += ' Also after a Content-Type change between two reads, with the body touched in the handler and read while the answer streams, and under one environment fault per execution (a read failing once at every position, a spool file that cannot be created).'
+MANIFEST['text'] += ' An E-SCHED layer serves two requests with bodies on two threads of one application under every schedule with <= 1 preemption (2 for one pair in the thorough tier); a sequence layer serves all 3-request sequences over 5 bodies x 4 handler styles (returning, closing, writing to the body object) through one application.'
+if 'E-SCHED' not in MANIFEST['engines']:
+    MANIFEST['engines'] = list(MANIFEST['engines']) + ['E-SCHED']
+MANIFEST['technique'] += '; stateless exploration of all two-thread schedules (preemption-bounded, source-line scheduling points) for the state the property could park on shared objects'
